@@ -5,6 +5,7 @@ import (
 	"go/ast"
 	"go/token"
 	"go/types"
+	"strings"
 
 	"golang.org/x/tools/go/cfg"
 
@@ -160,4 +161,92 @@ func KeyExistsRules(c *core.Ctx) {
 		}
 		c.Check("R7.key-exists", "RestoreRdbEntry/"+p, fn.Decl.Pos(), v.w == nil, msg[p], v.w...)
 	}
+}
+
+// FirstPieceRules: a key that the loader hands out in several pieces (BinEntry.NeedReadLen == 1 marks the first
+// one) is restored element by element (restoreBigRdbEntry). Under key_exists=rewrite the existing target key is
+// deleted before that - which may happen for the first piece only: a DEL in front of a follow-up piece removes
+// what the earlier pieces have just written.
+func FirstPieceRules(c *core.Ctx) {
+	fn := c.FuncOpt(pkgCommon, "", "RestoreRdbEntry")
+	if fn == nil || fn.Decl.Body == nil || len(fn.Decl.Type.Params.List) == 0 {
+		return
+	}
+	info := fn.Pkg.TypesInfo
+	g := cfgq.Of(c.Program, fn)
+	cmdCall := func(call *ast.CallExpr, cmd string) bool {
+		if len(call.Args) < 2 {
+			return false
+		}
+		s, ok := core.StringConst(info, call.Args[0])
+		return ok && strings.EqualFold(s, cmd) && core.IsFieldNamed(info, Through(info, call.Args[1]), "BinEntry", "Key")
+	}
+	isCmd := func(n ast.Node, cmd string) bool {
+		for _, call := range cfgq.ExecCalls(n) {
+			if cmdCall(call, cmd) {
+				return true
+			}
+			// one level: a helper of the package that issues the command for the entry it is handed
+			if h := c.FnOf(CalleeF(info, call)); h != nil && h.Decl.Body != nil && h.Pkg == fn.Pkg && h != fn {
+				found := false
+				core.Inspect(h.Decl.Body, func(m ast.Node) bool {
+					if hc, isC := m.(*ast.CallExpr); isC && cmdCall(hc, cmd) {
+						found = true
+					}
+					return !found
+				})
+				if found {
+					return true
+				}
+			}
+		}
+		return false
+	}
+	isBig := func(n ast.Node) bool {
+		for _, call := range cfgq.ExecCalls(n) {
+			if isCommon(CalleeF(info, call), "restoreBigRdbEntry") {
+				return true
+			}
+		}
+		return false
+	}
+	isRestoreCmd := func(n ast.Node) bool { // a RESTORE in between: the DEL belongs to the whole-value path
+		for _, call := range cfgq.ExecCalls(n) {
+			if len(call.Args) >= 1 {
+				if s, ok := core.StringConst(info, call.Args[0]); ok && strings.EqualFold(s, "restore") {
+					return true
+				}
+			}
+		}
+		return false
+	}
+	first := func(b *cfg.Block, s int) bool {
+		return EdgeFact(g, b, s, func(f cfgq.Fact) bool {
+			be, ok := ast.Unparen(f.Expr).(*ast.BinaryExpr)
+			if !ok || be.Op != token.EQL && be.Op != token.NEQ {
+				return false
+			}
+			x, y := be.X, be.Y
+			if _, isC := core.IntConst(info, x); isC {
+				x, y = y, x
+			}
+			v, isC := core.IntConst(info, y)
+			return isC && v == 1 && core.IsFieldNamed(info, Through(info, x), "BinEntry", "NeedReadLen") && (be.Op == token.EQL) == f.Val
+		})
+	}
+	n := 0
+	var w []string
+	for _, p := range g.Points(func(n ast.Node) bool { return isCmd(n, "del") }) {
+		if g.Path(cfgq.Query{From: p, After: true, Target: isBig, Avoid: isRestoreCmd}) == nil {
+			continue // not a DEL in front of the element-by-element restore
+		}
+		n++
+		if w == nil {
+			w = g.Path(cfgq.Query{From: g.Entry(), Target: IsNode(p.Node()), AvoidEdge: first})
+		}
+	}
+	if n == 0 {
+		return // no such DEL: nothing can be deleted between the pieces
+	}
+	c.Check("R7.first-piece", "RestoreRdbEntry/del-before-pieces", fn.Decl.Pos(), w == nil, "the DEL that key_exists=rewrite issues in front of the element-by-element restore must be limited to the first piece of a split key (NeedReadLen == 1): issued for a follow-up piece it deletes what the earlier pieces wrote, the target keeps only the fields of the last piece", w...)
 }
